@@ -174,7 +174,7 @@ func fxCallee(v ssa.Value) (*ssa.Call, *ssa.Function) {
 	if !ok {
 		return nil, nil
 	}
-	return c, c.Call.StaticCallee()
+	return c, ir.Callee(c.Call)
 }
 
 // fxCallOf sees through `extract #i` and wrappers to the producing call.
